@@ -56,10 +56,18 @@ def setupCylindricalGrid(layout: str, constantFile: str = None, **kwargs):
     else:
         constants = get_constants(constantFile)
 
+    # Setting rMin or rMax resets rp. Unless the call overrides the radial
+    # domain or rp itself, the value read from the constants must be kept
+    rp = constants.rp
+    keep_rp = not any(k in kwargs for k in ('rp', 'rMin', 'rMax'))
+
     for f in dir(constants):
         val = getattr(constants, f)
         if not callable(val) and f[0] != '_':
             setattr(constants, f, kwargs.pop(f, val))
+
+    if (keep_rp):
+        constants.rp = rp
 
     comm = kwargs.pop('comm', MPI.COMM_WORLD)
     plotThread = kwargs.pop('plotThread', False)
@@ -152,10 +160,18 @@ def setupFromFile(foldername, constantFile: str = None, **kwargs):
 
     constants = get_constants(constantFile)
 
+    # Setting rMin or rMax resets rp. Unless the call overrides the radial
+    # domain or rp itself, the value read from the constants must be kept
+    rp = constants.rp
+    keep_rp = not any(k in kwargs for k in ('rp', 'rMin', 'rMax'))
+
     for f in dir(constants):
         val = getattr(constants, f)
         if not callable(val) and f[0] != '_':
             setattr(constants, f, kwargs.pop(f, val))
+
+    if (keep_rp):
+        constants.rp = rp
 
     plotThread = kwargs.pop('plotThread', False)
     drawRank = kwargs.pop('drawRank', 0)
